@@ -3,6 +3,7 @@ package runner
 // Native replay for C14 (runner level): real contexts, runner, executor and shell.
 
 import (
+	"sort"
 	"encoding/json"
 	"fmt"
 	"os"
@@ -96,6 +97,7 @@ func TestVerifReplayC14(t *testing.T) {
 		return
 	}
 	nt, shape := int(sc.Args[0]), int(sc.Args[1])
+	twoCtx := len(sc.Args) > 2 && sc.Args[2] == 1
 	hasCond, hasBefore, hasAfter := shape&1 != 0, shape&2 != 0, shape&4 != 0
 	kind := func(k int) int { return num(fmt.Sprintf("outcome.%d", k)) }
 	for k := 0; k < 40; k++ {
@@ -110,7 +112,8 @@ func TestVerifReplayC14(t *testing.T) {
 	}
 	ctx := NewExecutionContext(nil, "", variables.NewVariables(), []string{mk("up0"), mk("up1")}, []string{mk("down0")}, []string{mk("cb0")}, []string{mk("ca0")})
 	other := NewExecutionContext(nil, "", variables.NewVariables(), []string{mk("up-other")}, []string{mk("down-other")}, nil, nil)
-	r, _ := NewTaskRunner(WithContexts(map[string]*ExecutionContext{"ctx": ctx, "unused": other}))
+	ctxB := NewExecutionContext(nil, "", variables.NewVariables(), []string{mk("upB")}, []string{mk("downB")}, []string{mk("cbB")}, []string{mk("caB")})
+	r, _ := NewTaskRunner(WithContexts(map[string]*ExecutionContext{"ctx": ctx, "unused": other, "ctxB": ctxB}))
 	r.Stdout, r.Stderr = &strings.Builder{}, &strings.Builder{}
 	// reference walk over the scenario's outcomes
 	var exp []string
@@ -122,12 +125,29 @@ func TestVerifReplayC14(t *testing.T) {
 		return kind(k) == 1, kind(k) == 1
 	}
 	upDone, upFail := false, false
+	upDoneB, upFailB := false, false
 	var wantErr []bool
 	for k := 0; k < nt; k++ {
 		allow, _ := sc.Inputs[fmt.Sprintf("allow_failure.%d", k)].(bool)
 		mustFail := false
+		useB := twoCtx && k == 1
+		cb, ca := "cb0", "ca0"
+		if useB {
+			cb, ca = "cbB", "caB"
+		}
 		func() {
-			if !upDone {
+			if useB {
+				if !upDoneB {
+					upDoneB = true
+					if f, _ := next("upB"); f {
+						upFailB = true
+					}
+				}
+				if upFailB {
+					mustFail = true
+					return
+				}
+			} else if !upDone {
 				upDone = true
 				if f, _ := next("up0"); f {
 					upFail = true
@@ -136,11 +156,11 @@ func TestVerifReplayC14(t *testing.T) {
 					upFail = true
 				}
 			}
-			if upFail {
+			if !useB && upFail {
 				mustFail = true
 				return
 			}
-			if f, _ := next("cb0"); f {
+			if f, _ := next(cb); f {
 				mustFail = true
 				return
 			}
@@ -163,17 +183,23 @@ func TestVerifReplayC14(t *testing.T) {
 					next("a0")
 				}
 			}
-			next("ca0")
+			next(ca)
 			mustFail = failed
 		}()
 		wantErr = append(wantErr, mustFail)
 	}
-	exp = append(exp, "down0")
+	expDowns := []string{"down0"}
+	if twoCtx && nt == 2 {
+		expDowns = append(expDowns, "downB")
+	}
 	var errs []error
 	for k := 0; k < nt; k++ {
 		tk := task.FromCommands(mk("c0"))
 		tk.Name = fmt.Sprint("t", k)
 		tk.Context = "ctx"
+		if twoCtx && k == 1 {
+			tk.Context = "ctxB"
+		}
 		if hasCond {
 			tk.Condition = mk("cond")
 		}
@@ -190,7 +216,15 @@ func TestVerifReplayC14(t *testing.T) {
 	raw, _ := os.ReadFile(trace)
 	got := strings.Fields(string(raw))
 	fmt.Printf("REPLAY: expected %v\nREPLAY: observed %v errs=%v\n", exp, got, errs)
-	bad := strings.Join(got, " ") != strings.Join(exp, " ")
+	// the run part in order; the down commands as a set at the end
+	bad := len(got) != len(exp)+len(expDowns) || strings.Join(got[:min(len(exp), len(got))], " ") != strings.Join(exp, " ")
+	if !bad {
+		tail := append([]string(nil), got[len(exp):]...)
+		sort.Strings(tail)
+		sort.Strings(expDowns)
+		bad = strings.Join(tail, " ") != strings.Join(expDowns, " ")
+	}
+	exp = append(exp, expDowns...)
 	for k := range errs {
 		if (errs[k] != nil) != wantErr[k] {
 			bad = true
